@@ -3,5 +3,7 @@
 set -e
 cd "$(dirname "$0")"
 export CARGO_NET_OFFLINE=true
-(cd harness/worlda && cargo build --offline 2>&1 | tail -n 1 && cargo build --offline --release 2>&1 | tail -n 1)
+for c in worlda worldb; do
+  (cd harness/$c && cargo build --offline 2>&1 | tail -n 1 && cargo build --offline --release 2>&1 | tail -n 1)
+done
 echo setup done
